@@ -378,8 +378,9 @@ def _finish(new, calls, ev, rng, mid_apply=0.0):
     return ops
 
 
-def chain_mut(ctx, client, counter):
-    no = (counter * P2) % len(MUT_SPACE)
+def chain_mut(ctx, client, counter, no=None):
+    if no is None:
+        no = (counter * P2) % len(MUT_SPACE)
     fam, k, mut = MUT_SPACE[no]
     if fam == "module":
         built = module_chain(ctx, ctx.obj("M", client), MODULE_SHAPES[k], 0.0)
@@ -417,9 +418,10 @@ def _tok_call(ctx, obj, fam, tok, names, aid):
     return _call(obj, tok)
 
 
-def chain_seq(ctx, client, counter, toks=None, fam=None, mid_apply=0.0):
+def chain_seq(ctx, client, counter, toks=None, fam=None, mid_apply=0.0, no=None):
     if toks is None:
-        no = (counter * P1) % SEQ_TOTAL
+        if no is None:
+            no = (counter * P1) % SEQ_TOTAL
         fam, toks = decode_seq(no)
         tag = f"seq:{no}"
     else:
@@ -478,8 +480,9 @@ def chain_long(ctx, client):
     return chain_seq(ctx, client, 0, toks=toks, fam=fam, mid_apply=0.3)
 
 
-def scan_entry(ctx, counter, evname):
-    no = (counter * P3) % ENTRY_TOTAL
+def scan_entry(ctx, counter, evname, no=None):
+    if no is None:
+        no = (counter * P3) % ENTRY_TOTAL
     kw, place, via = decode_entry(no)
     tree = ctx.wd["tree"]
     sub = sorted(d for d in tree.pkg_depth if d != tree.root)
@@ -494,6 +497,25 @@ def scan_entry(ctx, counter, evname):
             root, module = a, b
     cfg = {"tree": tree.name, "root": root, "module": module, "via": via, "kw": kw}
     return cfg, f"entry:{no}"
+
+
+# --- systematic sweeps --------------------------------------------------------------------
+SWEEP_PER_PLAN = 16
+N_MUT_PLANS = (len(MUT_SPACE) + SWEEP_PER_PLAN - 1) // SWEEP_PER_PLAN
+N_ENTRY_PLANS = (ENTRY_TOTAL + SWEEP_PER_PLAN - 1) // SWEEP_PER_PLAN
+N_SEQ_PLANS = (SEQ_TOTAL + SWEEP_PER_PLAN - 1) // SWEEP_PER_PLAN
+SEQ_SWEEP_BASE = 1_000_000  # plan indices SEQ_SWEEP_BASE .. +N_SEQ_PLANS walk every sequence <= 5
+
+
+def sweep_of(index):
+    """(kind, first member number) if `index` is a sweep plan, else None."""
+    if index < N_MUT_PLANS:
+        return "mut", index * SWEEP_PER_PLAN
+    if index < N_MUT_PLANS + N_ENTRY_PLANS:
+        return "entry", (index - N_MUT_PLANS) * SWEEP_PER_PLAN
+    if SEQ_SWEEP_BASE <= index < SEQ_SWEEP_BASE + N_SEQ_PLANS:
+        return "seq", (index - SEQ_SWEEP_BASE) * SWEEP_PER_PLAN
+    return None
 
 
 # --- plan ---------------------------------------------------------------------------------
@@ -520,16 +542,33 @@ def generate(seed, index):
         arch = [(n, (c[0], c[1])) for n, c in wd["archs"][aid]["layers"]]
         setup.extend(compile_arch(aid, arch, None))
     ctx = Ctx(rng, wd, evs)
-    nclients = rng.randint(1, 4)
+    sweep = sweep_of(index)
+    nclients = 4 if sweep else rng.randint(1, 4)
     clients = [[] for _ in range(nclients)]
     cover = []
     kinds = {}
     for c in range(nclients):
-        for j in range(rng.randint(1, 4)):
+        for j in range(4 if sweep else rng.randint(1, 4)):
             counter = (index * 4 + c) * 4 + j
             roll = rng.random()
             tag = None
-            if roll < 0.30:
+            if sweep:
+                kind, first = sweep
+                no = first + c * 4 + j
+                size = {"mut": len(MUT_SPACE), "entry": ENTRY_TOTAL, "seq": SEQ_TOTAL}[kind]
+                if no >= size:
+                    continue
+                if kind == "mut":
+                    ops, tag = chain_mut(ctx, c, counter, no=no)
+                elif kind == "seq":
+                    ops, tag = chain_seq(ctx, c, counter, no=no)
+                else:
+                    cfg, tag = scan_entry(ctx, counter, None, no=no)
+                    cid = f"x{len(cfgs)}"
+                    cfgs[cid] = cfg
+                    ops = [{"op": "scan", "ev": f"X{len(cfgs)}", "cfg": cid}]
+                kind = "sweep-" + kind
+            elif roll < 0.30:
                 kind = "mut"
                 ops, tag = chain_mut(ctx, c, counter)
             elif roll < 0.58:
